@@ -64,6 +64,7 @@ m222 == LeafF(<<2, 2, 2>>)
 Mc == Term("mvax", 31, m222, <<0, 1, 2, 1, 2, 0>>, <<>>)   \* cyclic shift of three axes of equal length (not an involution)
 Mn == Term("mvax", 32, m222, <<-3, -1, -1, -2>>, <<>>)     \* two axes, negative positions
 Dq == Term("diagq", 33, v2, <<1073741824, 1, -1>>, <<>>)   \* values 2^-30 and -2^-30 (9.3e-10): tiny non-zero entries
+Dw == Term("diagq", 52, v2, <<4096, 1, 16777216>>, <<>>)   \* values 2^-12 and 2^12: a ratio of 1.7e7 (> 1 / float32 eps), both invertible
 Dh == Term("diagq", 34, v3, <<2, 1, 2000000, 3>>, <<>>)         \* values 1/2, 10^6, 3/2
 
 \* ---- pytree-structured spaces: L22 = [v2, v2] (also the structure of block containers over two v2 blocks)
@@ -113,7 +114,7 @@ AtomTable ==
     H2 |-> Hom(2, 1, v2), Hh |-> Hom(-1, 2, v2), H3 |-> Hom(3, 1, v3), Hq |-> Hom(-3, 1, QU2), Hm |-> Hom(1, 2, m23),
     H6 |-> Hom(2, 1, v6), D0 |-> D0, D0I |-> DInvOf(D0), Dl |-> Dl, DlI |-> DInvOf(Dl), Prl |-> Prl, PrlT |-> TOf(Prl), BDl |-> BDl, BDi |-> BDi, BRl |-> BRl, BCl |-> BCl,
     Il |-> Id(L22), Hl |-> Hom(-2, 1, L22), Ob |-> Ob, ObT |-> TOf(Ob), Mp |-> Mp, Mq |-> Mq, MpT |-> Transpose(Mp), Ma |-> Ma, Mb |-> Mb, MaT |-> Transpose(Ma), Mc |-> Mc, McT |-> Transpose(Mc), Mn |-> Mn, Dq |-> Dq, DqI |-> DInvOf(Dq), Dh |-> Dh, D3I |-> DInvOf(D3), AB |-> AddT(<<A, B>>),
-    Pp |-> Pp, PpT |-> TOf(Pp), Pn |-> Pn, BRt |-> BRt, BCt |-> BCt ]
+    Pp |-> Pp, PpT |-> TOf(Pp), Pn |-> Pn, BRt |-> BRt, BCt |-> BCt, Dw |-> Dw, DwI |-> DInvOf(Dw) ]
 
 AllAtomNames == DOMAIN AtomTable
 =============================================================================
